@@ -14,6 +14,7 @@ from spacepackets.cfdp.pdu.file_directive import (
 )
 from spacepackets.cfdp.conf import PduConfig
 from spacepackets.crc import CRC16_CCITT_FUNC
+from spacepackets.exceptions import BytesTooShortError
 
 
 def get_max_seg_reqs_for_max_packet_size_and_pdu_cfg(
@@ -255,11 +256,23 @@ class NakPdu(AbstractFileDirectiveBase):
                 f"invalid PDU directive type for NAK PDU: "
                 f"{nak_pdu.pdu_file_directive.directive_type}"
             )
+        if len(data) > nak_pdu.pdu_file_directive.packet_len:
+            raise ValueError(
+                f"passed data with length {len(data)} is longer than the NAK PDU with "
+                f"length {nak_pdu.pdu_file_directive.packet_len}"
+            )
+        # Only the declared PDU without the CRC trailer contains directive parameters.
+        end_of_params = nak_pdu.pdu_file_directive.packet_len
+        if nak_pdu.pdu_file_directive.pdu_conf.crc_flag == CrcFlag.WITH_CRC:
+            end_of_params -= 2
+        data = data[:end_of_params]
         current_idx = nak_pdu.pdu_file_directive.header_len
         if not nak_pdu.pdu_file_directive.pdu_header.large_file_flag_set:
             struct_arg_tuple = ("!I", 4)
         else:
             struct_arg_tuple = ("!Q", 8)
+        if current_idx + 2 * struct_arg_tuple[1] > len(data):
+            raise BytesTooShortError(current_idx + 2 * struct_arg_tuple[1], len(data))
         nak_pdu.start_of_scope = struct.unpack(
             struct_arg_tuple[0],
             data[current_idx : current_idx + struct_arg_tuple[1]],
